@@ -1,4 +1,5 @@
 """C08 - a trajectory is a pure function of script, engine kind and seed."""
+import json
 import math
 import random
 
@@ -16,7 +17,7 @@ def make_case(rng, tier):
         c["init"] = rng.choice(["auto", "redist", "Poisson", "none"]) if c["engine"] != "euler" else rng.choice(["auto", "none"])
     c["sched_seed"] = rng.randrange(2 ** 30)
     if rng.random() < 0.25:
-        c["seed"] = rng.choice([0, 0, 1, 2 ** 31 - 1, 2 ** 32 - 1])       # edge values of the seed
+        c["seed"] = rng.choice([0, 0, 1, 2 ** 31 - 1, 2 ** 32 - 1, 2 ** 53 + 1, 2 ** 63 - 25])       # edge values of the seed
     return c
 
 
@@ -134,6 +135,9 @@ def observe(c):
     # random partitions of the loop into iterate / iterate_n(k) / run(ms)
     for k in range(3):
         runs.append(["schedule_%d" % k, _drive(engine_build.engine(kind), script, sched_rng=random.Random(rng.randrange(2 ** 30)))[1], True])
+    # the script written to a dictionary and read back (as a file would) reproduces it
+    import strengths.rdscript as _rs
+    runs.append(["script_through_dictionary", _drive(engine_build.engine(kind), _rs.rdscript_from_dict(json.loads(json.dumps(_rs.rdscript_to_dict(script)))))[1], True])
     # the script stored in the trajectory reproduces it
     runs.append(["stored_script", _drive(engine_build.engine(kind), out_ref.script)[1], True])
     # a drawn seed is stored and reproduces the run
